@@ -37,7 +37,7 @@ lexer grammar CTELexer;
 type LexerContext interface {
 	RecordVerbatimSentinel(text string)
 	IsAtVerbatimSentinel(stream antlr.CharStream) bool
-	IsSentinelChar(stream antlr.CharStream) bool
+	IsSentinelChar(stream antlr.CharStream, tokenStartIndex int) bool
 }
 
 type CTELexerContext struct {
@@ -61,13 +61,25 @@ func (_this *CTELexerContext) IsAtVerbatimSentinel(stream antlr.CharStream) bool
 	  return true;
   }
 
-func (_this *CTELexerContext) IsSentinelChar(stream antlr.CharStream) bool {
-    index := _this.verbatimIndex;
-    if index >= len(_this.verbatimSentinel) {
-      return false;
-    }
-    _this.verbatimIndex++;
-    return stream.LA(1) == int(_this.verbatimSentinel[index]);
+func (_this *CTELexerContext) IsSentinelChar(stream antlr.CharStream, tokenStartIndex int) bool {
+	// Predicates are also evaluated speculatively, more than once and out of
+	// order: which sentinel character is due follows from the position within
+	// the token, not from a counter.
+	index := stream.Index() - tokenStartIndex
+	if index < 0 || index >= len(_this.verbatimSentinel) {
+		return false
+	}
+	if index == 0 {
+		// A sentinel token is the whole sentinel, not a prefix of it that the
+		// contents happen to begin with.
+		for n := 0; n < len(_this.verbatimSentinel); n++ {
+			if stream.LA(n+1) != int(_this.verbatimSentinel[n]) {
+				return false
+			}
+		}
+		return true
+	}
+	return stream.LA(1) == int(_this.verbatimSentinel[index])
 }
 
 type CTEContextualInterpreter struct {
@@ -90,7 +102,7 @@ func isAtVerbatimSentinel(lexer *CTELexer) bool {
 }
 
 func isSentinelChar(lexer *CTELexer) bool {
-	return lexer.Interpreter.(LexerContext).IsSentinelChar(lexer.GetInputStream())
+	return lexer.Interpreter.(LexerContext).IsSentinelChar(lexer.GetInputStream(), lexer.TokenStartCharIndex)
 }
 
 }
